@@ -670,8 +670,17 @@ pub fn history_rule_sets() -> Vec<(&'static str, Vec<RSpec>)> {
         ("dated_rules", vec![with(p("A"), &|r| r.date = DateWin::Active), with(p("B"), &|r| { r.date = DateWin::Active; r.no_loop = true })]),
         ("flag_chain", vec![with(p("A"), &|r| { r.act = ActK::SetVar(0, 1); r.no_loop = true }), with(p("B"), &|r| { r.cond = CondK::VarEq(0, 1); r.salience = 5; r.no_loop = true })]),
         ("group_no_loop_dated", vec![with(p("A"), &|r| { r.agenda = Some("G"); r.no_loop = true; r.date = DateWin::Active }), with(p("B"), &|r| r.salience = -1)]),
+        // from here on: three agenda groups, driven with the focus alphabet (FOCUS_SETS_FROM)
+        ("three_groups", vec![p("M"), with(p("A"), &|r| r.agenda = Some("G")), with(p("B"), &|r| r.agenda = Some("H"))]),
+        ("three_groups_activating_actions", vec![
+            with(p("M"), &|r| { r.act = ActK::Activate("G"); r.no_loop = true }),
+            with(p("A"), &|r| { r.agenda = Some("G"); r.act = ActK::Activate("H"); r.no_loop = true }),
+            with(p("B"), &|r| { r.agenda = Some("H"); r.act = ActK::Activate("G"); r.no_loop = true }),
+        ]),
     ]
 }
+
+pub const FOCUS_SETS_FROM: usize = 8;
 
 pub struct HSys {
     rules: Vec<RSpec>,
@@ -682,13 +691,35 @@ pub struct HSys {
     seq_seen: usize,
     loa_epoch_fired: BTreeMap<String, usize>,
     calls: Vec<String>,
+    focus_alphabet: bool,
+    /// focus stack as documented in AgendaManager::set_focus / pop_focus: distinct groups, set moves a
+    /// group to the top, pop returns to the entry below. None = not known (after an Undefined execute).
+    mstack: Option<Vec<String>>,
 }
 
 impl HSys {
     pub fn new(set: usize) -> Self {
         let rules = history_rule_sets()[set].1.clone();
         let eng = build_engine(&rules, false, 3).unwrap_or_else(|e| explore::machinery(&e));
-        HSys { rules, eng, facts: mk_facts(), em: EModel::default(), vars: Vars::default(), seq_seen: 0, loa_epoch_fired: BTreeMap::new(), calls: vec![] }
+        HSys { rules, eng, facts: mk_facts(), em: EModel::default(), vars: Vars::default(), seq_seen: 0, loa_epoch_fired: BTreeMap::new(), calls: vec![], focus_alphabet: set >= FOCUS_SETS_FROM, mstack: Some(vec!["MAIN".to_string()]) }
+    }
+    fn m_set_focus(&mut self, g: &str) {
+        if let Some(st) = self.mstack.as_mut() {
+            st.retain(|x| x != g);
+            st.push(g.to_string());
+        }
+    }
+    fn m_top(&self) -> Option<String> {
+        self.mstack.as_ref().and_then(|s| s.last().cloned())
+    }
+    fn check_focus(&self) -> Result<(), Mismatch> {
+        if let Some(top) = self.m_top() {
+            let got = self.eng.get_active_agenda_group().to_string();
+            if got != top {
+                return Err(Mismatch::new("focused_group_differs_from_focus_history", format!("the focus history {:?} leaves group {} focused (stack {:?}) but the engine reports {}", self.calls, top, self.mstack.as_ref().unwrap(), got)));
+            }
+        }
+        Ok(())
     }
     fn new_epoch(&mut self, g: &str) {
         for q in self.rules.iter().filter(|q| q.loa && q.agenda.unwrap_or("MAIN") == g) {
@@ -700,6 +731,9 @@ impl HSys {
 impl System for HSys {
     type Op = Call;
     fn enabled(&self) -> Vec<Call> {
+        if self.focus_alphabet {
+            return vec![Call::Exec(0), Call::Focus("G"), Call::Focus("H"), Call::Pop, Call::Focus("MAIN"), Call::Clear, Call::ActivateApi("H")];
+        }
         vec![Call::Exec(0), Call::Exec(-20), Call::Exec(20), Call::Exec(-10), Call::Exec(10), Call::Focus("G"), Call::Focus("MAIN"), Call::Pop, Call::Clear, Call::ActivateApi("G"), Call::ResetNoLoop]
     }
     fn step(&mut self, op: &Call) -> Result<u64, Mismatch> {
@@ -711,6 +745,7 @@ impl System for HSys {
                 if self.eng.get_active_agenda_group() != *g {
                     return Err(Mismatch::new("focus_not_set", format!("after set_agenda_focus({}) the active group is {}", g, self.eng.get_active_agenda_group())));
                 }
+                self.m_set_focus(g);
                 Ok(1)
             }
             Call::ActivateApi(g) => {
@@ -719,10 +754,27 @@ impl System for HSys {
                 if self.eng.get_active_agenda_group() != *g {
                     return Err(Mismatch::new("focus_not_set", format!("after activate_agenda_group({}) the active group is {}", g, self.eng.get_active_agenda_group())));
                 }
+                self.m_set_focus(g);
                 Ok(2)
             }
             Call::Pop => {
                 self.eng.pop_agenda_focus();
+                let got = self.eng.get_active_agenda_group().to_string();
+                match self.mstack.as_mut() {
+                    Some(st) if st.len() > 1 => {
+                        st.pop();
+                    }
+                    Some(st) if st[0] != "MAIN" => {
+                        // popping the only entry when it is not MAIN: staying there and falling back to MAIN are
+                        // both reasonable; follow the code
+                        if got != st[0] && got != "MAIN" {
+                            return Err(Mismatch::new("focused_group_differs_from_focus_history", format!("pop on a stack holding only {} focused {}", st[0], got)));
+                        }
+                        *st = vec![got];
+                    }
+                    _ => {}
+                }
+                self.check_focus()?;
                 Ok(3)
             }
             Call::Clear => {
@@ -730,6 +782,7 @@ impl System for HSys {
                 if self.eng.get_active_agenda_group() != "MAIN" {
                     return Err(Mismatch::new("focus_not_set", "clear_agenda_focus did not return to MAIN".to_string()));
                 }
+                self.mstack = Some(vec!["MAIN".to_string()]);
                 Ok(4)
             }
             Call::ResetNoLoop => {
@@ -739,7 +792,8 @@ impl System for HSys {
             }
             Call::Exec(days) => {
                 let t = t_eval() + Duration::days(*days);
-                let focus0 = self.eng.get_active_agenda_group().to_string();
+                self.check_focus()?;
+                let focus0 = self.m_top().unwrap_or_else(|| self.eng.get_active_agenda_group().to_string());
                 let mut em2 = self.em.clone();
                 let exp = ref_forward(&self.rules, &mut em2, &self.vars, &focus0, t, 3);
                 let res = self.eng.execute_at_time(&self.facts, t).map_err(|e| Mismatch::new("execute_failed", format!("{:?}", e)))?;
@@ -763,6 +817,7 @@ impl System for HSys {
                             }
                         }
                     }
+                    self.mstack = None;
                     return Ok(6);
                 }
                 let mut focus = focus0.clone();
@@ -794,6 +849,7 @@ impl System for HSys {
                         if let ActK::Activate(g) = a {
                             focus = g.to_string();
                             self.new_epoch(g);
+                            self.m_set_focus(g);
                         }
                     }
                 }
@@ -806,6 +862,7 @@ impl System for HSys {
                     }
                     self.em = em2;
                 }
+                self.check_focus()?;
                 Ok(hstr(&format!("{:?}", seq)))
             }
         }
@@ -830,7 +887,7 @@ impl System for HSys {
 pub fn run_histories(opts: &Opts) -> Report {
     let depth = if opts.tier == Tier::Quick { 4 } else { 5 };
     let mut total = Report::new("call_histories");
-    for (i, (name, rules)) in history_rule_sets().iter().enumerate() {
+    for (i, (name, rules)) in history_rule_sets().iter().enumerate().take(FOCUS_SETS_FROM) {
         let mut cfg = Config::new("call_histories", depth);
         cfg.ctx = json!({"rule_set": i, "rule_set_name": name, "rules": describe_rules(rules)});
         total.merge(explore::explore(&move || HSys::new(i), &cfg));
@@ -840,8 +897,105 @@ pub fn run_histories(opts: &Opts) -> Report {
             total.notes.push(format!("VACUITY: letter '{}' never enabled", l));
         }
     }
-    total.bound = format!("{} rule sets x all histories of <= {} calls over execute_at_time(5 instants incl. both date bounds) / set_agenda_focus(G|MAIN) / pop / clear / activate_agenda_group(G) / reset_no_loop_tracking on one engine", history_rule_sets().len(), depth);
+    total.bound = format!("{} rule sets x all histories of <= {} calls over execute_at_time(5 instants incl. both date bounds) / set_agenda_focus(G|MAIN) / pop / clear / activate_agenda_group(G) / reset_no_loop_tracking on one engine", FOCUS_SETS_FROM, depth);
     total
+}
+
+/// focus histories over three agenda groups (MAIN, G, H): the focused group after every set / pop / clear /
+/// activate history is the one the documented focus stack gives, and only its rules fire
+pub fn run_focus_histories(opts: &Opts) -> Report {
+    let depth = if opts.tier == Tier::Quick { 6 } else { 8 };
+    let mut total = Report::new("focus_histories");
+    let sets = history_rule_sets();
+    for (i, (name, rules)) in sets.iter().enumerate().skip(FOCUS_SETS_FROM) {
+        let mut cfg = Config::new("focus_histories", depth);
+        cfg.ctx = json!({"rule_set": i, "rule_set_name": name, "rules": describe_rules(rules)});
+        total.merge(explore::explore(&move || HSys::new(i), &cfg));
+    }
+    for l in ["execute_at_time", "set_agenda_focus", "pop_agenda_focus", "clear_agenda_focus", "activate_agenda_group"] {
+        if !total.letters.contains_key(l) {
+            total.notes.push(format!("VACUITY: letter '{}' never enabled", l));
+        }
+    }
+    total.assumptions.push("focus stack as documented at AgendaManager::set_focus / pop_focus: a re-focused group moves to the top (no duplicates), pop returns to the entry below; popping a lone non-MAIN entry is left open".into());
+    total.bound = format!("{} rule sets over agenda groups MAIN/G/H x all histories of <= {} calls over execute_at_time / set_agenda_focus(G|H|MAIN) / pop / clear / activate_agenda_group(H)", sets.len() - FOCUS_SETS_FROM, depth);
+    total
+}
+
+/// larger rule sets: equal-salience rules keep insertion order however many rules there are and in whatever
+/// salience order they were added (every n up to a bound x salience patterns with ties, builder and GRL)
+pub fn run_many_rules(opts: &Opts) -> Report {
+    let t0 = Instant::now();
+    let nmax: usize = if opts.tier == Tier::Quick { 64 } else { 160 };
+    let mut rep = Report::new("many_rules");
+    let mut nt = BTreeSet::new();
+    let patterns: Vec<(&str, Box<dyn Fn(usize, usize) -> i32>)> = vec![
+        ("all_equal", Box::new(|_i, _n| 0)),
+        ("all_equal_then_one_higher_last", Box::new(|i, n| if i + 1 == n { 10 } else { 0 })),
+        ("all_equal_then_one_lower_last", Box::new(|i, n| if i + 1 == n { -10 } else { 0 })),
+        ("one_lower_first_then_equal", Box::new(|i, _n| if i == 0 { -10 } else { 0 })),
+        ("alternating_two", Box::new(|i, _n| (i % 2) as i32)),
+        ("cycle_of_three", Box::new(|i, _n| (i % 3) as i32 - 1)),
+        ("two_blocks_low_then_high", Box::new(|i, n| if i < n / 2 { 0 } else { 5 })),
+        ("two_blocks_high_then_low", Box::new(|i, n| if i < n / 2 { 5 } else { 0 })),
+        ("ascending_pairs", Box::new(|i, _n| (i / 2) as i32)),
+        ("descending_pairs", Box::new(|i, n| ((n - i) / 2) as i32)),
+        ("pseudo_mixed", Box::new(|i, _n| ((i * 7 + 3) % 5) as i32 - 2)),
+    ];
+    for n in 1..=nmax {
+        for (pname, pat) in &patterns {
+            for via_grl in [false, true] {
+                if via_grl && n % 8 != 5 {
+                    continue;
+                }
+                let rules: Vec<RSpec> = (0..n)
+                    .map(|i| {
+                        let mut r = RSpec::plain(&format!("R{:03}", i));
+                        r.salience = pat(i, n);
+                        r
+                    })
+                    .collect();
+                rep.count("evaluations", 1);
+                let case = json!({"sub": "many_rules", "n": n, "pattern": pname, "via_grl": via_grl, "saliences": rules.iter().map(|r| r.salience).collect::<Vec<_>>()});
+                let eng = match build_engine(&rules, via_grl, 1) {
+                    Ok(e) => e,
+                    Err(e) => {
+                        rep.violation(Violation { class: "rule_set_rejected".into(), detail: e, tags: vec![], case });
+                        continue;
+                    }
+                };
+                let mut eng = eng;
+                let facts = mk_facts();
+                let res = std::panic::catch_unwind(std::panic::AssertUnwindSafe(|| eng.execute_at_time(&facts, t_eval())));
+                let seq = read_seq(&facts);
+                let mut want: Vec<(i32, usize)> = rules.iter().enumerate().map(|(i, r)| (r.salience, i)).collect();
+                want.sort_by(|a, b| b.0.cmp(&a.0).then(a.1.cmp(&b.1)));
+                let want: Vec<String> = want.iter().map(|(_, i)| rules[*i].name.clone()).collect();
+                nt.insert(hstr(&format!("{}|{}|{}", n, pname, via_grl)));
+                match res {
+                    Err(_) => rep.violation(Violation { class: "panic".into(), detail: explore::take_panic(), tags: vec![], case }),
+                    Ok(Err(e)) => rep.violation(Violation { class: "execute_failed".into(), detail: format!("{:?}", e), tags: vec![], case }),
+                    Ok(Ok(_)) => {
+                        if seq != want {
+                            let k = seq.iter().zip(want.iter()).position(|(a, b)| a != b).unwrap_or(seq.len().min(want.len()));
+                            let tag = if n > 20 { "more_than_20_rules" } else { "at_most_20_rules" };
+                            rep.violation(Violation {
+                                class: "firing_sequence_differs".into(),
+                                detail: format!("{} rules, salience pattern {}: firing order differs from descending salience / insertion order among equals at position {} (fired {:?}, expected {:?})", n, pname, k, seq.get(k), want.get(k)),
+                                tags: vec![tag.to_string()],
+                                case,
+                            });
+                        }
+                    }
+                }
+            }
+        }
+    }
+    rep.count("nontrivial", nt.len() as u64);
+    rep.sample(json!({"n": 21, "pattern": "all_equal_then_one_higher_last", "expected_first": "R020"}));
+    rep.bound = format!("every rule count 1..={} x {} salience patterns with ties (added in the listed order) through the builder, every 8th count also through GRL; one pass; firing order = descending salience, insertion order among equals", nmax, patterns.len());
+    rep.wall_s = t0.elapsed().as_secs_f64();
+    rep
 }
 
 pub fn run(opts: &Opts) -> Vec<Report> {
@@ -854,6 +1008,12 @@ pub fn run(opts: &Opts) -> Vec<Report> {
     }
     if crate::props::wants(opts, "call_histories") {
         out.push(run_histories(opts));
+    }
+    if crate::props::wants(opts, "focus_histories") {
+        out.push(run_focus_histories(opts));
+    }
+    if crate::props::wants(opts, "many_rules") {
+        out.push(run_many_rules(opts));
     }
     out
 }
@@ -921,10 +1081,26 @@ pub fn run_dataflow(opts: &Opts) -> Vec<Report> {
 
 pub fn replay(case: &serde_json::Value) -> crate::props::ReplayResult {
     match case["sub"].as_str().unwrap_or("") {
-        "call_histories" => {
+        "call_histories" | "focus_histories" => {
             let set = case["ctx"]["rule_set"].as_u64().unwrap_or(0) as usize;
             let ch = crate::props::choices_of(case);
             crate::props::conv(explore::replay(&move || HSys::new(set), &ch))
+        }
+        "many_rules" => {
+            let sal: Vec<i32> = case["saliences"].as_array().map(|a| a.iter().map(|x| x.as_i64().unwrap_or(0) as i32).collect()).unwrap_or_default();
+            let rules: Vec<RSpec> = sal.iter().enumerate().map(|(i, s)| { let mut r = RSpec::plain(&format!("R{:03}", i)); r.salience = *s; r }).collect();
+            let hist = vec![format!("{} rules, saliences {:?}", rules.len(), sal)];
+            let mut eng = build_engine(&rules, case["via_grl"].as_bool().unwrap_or(false), 1).map_err(|e| (hist.clone(), "rule_set_rejected".to_string(), e))?;
+            let facts = mk_facts();
+            eng.execute_at_time(&facts, t_eval()).map_err(|e| (hist.clone(), "execute_failed".to_string(), format!("{:?}", e)))?;
+            let seq = read_seq(&facts);
+            let mut want: Vec<(i32, usize)> = rules.iter().enumerate().map(|(i, r)| (r.salience, i)).collect();
+            want.sort_by(|a, b| b.0.cmp(&a.0).then(a.1.cmp(&b.1)));
+            let want: Vec<String> = want.iter().map(|(_, i)| rules[*i].name.clone()).collect();
+            if seq != want {
+                return Err((hist, "firing_sequence_differs".into(), format!("fired {:?}, expected {:?}", seq, want)));
+            }
+            Ok(hist)
         }
         "dataflow" => {
             use crate::refval::{read, Store, V};
